@@ -16,7 +16,9 @@ gvars == <<stream, alive, cfg, hist>>
 ASSUME PrintT(<<"TABLE", ToJson(Table)>>)
 ASSUME PrintT(<<"ALPHABET", ToJson(Alphabet)>>)
 ASSUME PrintT(<<"ANCHORS", ToJson(Anchors)>>)
-ASSUME \A i \in DOMAIN Anchors : /\ Range(Anchors[i].seq) \subseteq DOMAIN Alphabet
+ASSUME PrintT(<<"LETTERS", ToJson(Letters)>>)
+ASSUME \A a \in DOMAIN Letters : IsFrame(Letters[a])
+ASSUME \A i \in DOMAIN Anchors : /\ Range(Anchors[i].seq) \subseteq DOMAIN Letters
                                  /\ IsCfg([k \in DOMAIN Cfg |-> IF k \in DOMAIN Anchors[i].cfg THEN Anchors[i].cfg[k] ELSE BlankCfg[k]])
 
 Init == WInit({BlankCfg}) /\ hist = <<>>
